@@ -110,6 +110,13 @@ class Explorer:
         r = guarded_check(self.solver, *extra, seconds=self.timeout_ms / 1000.0 + 5)
         if r == z3.unknown:
             r = self._retry(extra)
+        # an `unknown` that comes back quickly is not a solver giving up on a hard query but a stray interrupt (the
+        # watchdog of an earlier query firing late) or a resource hiccup on a loaded machine: ask again
+        rounds = 0
+        while r == z3.unknown and time.time() - t < 20.0 and rounds < 3:
+            rounds += 1
+            time.sleep(0.05 * rounds)
+            r = self._retry(extra)
         self.solver_time += time.time() - t
         if r == z3.unknown:
             self.unknown += 1
